@@ -725,8 +725,12 @@ def run(ctx):
     # 1. known-finding witnesses first
     if not ctx.model_ok and not search_without_model(ctx):
         return
+    from props import c02x
     for f in ctx.findings:
-        run_witness(ctx, f['witness'])
+        if f['witness'].get('x'):
+            c02x.run_xwitness(ctx, f['witness'])
+        else:
+            run_witness(ctx, f['witness'])
     # 2. random histories
     nobs = ctx.scale(25, 300)
     per_obs = ctx.scale(60, 100)
@@ -740,6 +744,11 @@ def run(ctx):
         for j, (h, mo) in enumerate(zip(histories, mouts)):
             run_history(ctx, ob, h, mo, dict(kind='random', oseed=oseed, per_obs=per_obs, j=j))
         ctx.count('observations')
+    # 2b. extended model: several windows / subarrays, surface forms, failed calls, public attributes in the model
+    xcases = []
+    c02x.run_random(ctx, ctx.scale(40, 400), ctx.scale(40, 80), collect=xcases)
+    c02x.run_helpers(ctx, ctx.scale(1500, 20000))
+    all_cases += xcases[:20]
     # 3. exhaustive two-call histories over a fixed alphabet on a small observation
     exhaustive_pairs(ctx)
     # 3b. the same histories on a real format class (MVF v4 from telstate + chunk store), thorough tier
@@ -891,8 +900,13 @@ def replay(ctx, doc):
     hid = case.get('hid') or {}
     if 'witness' in doc and not hid:
         hid = dict(kind='witness', witness=doc['witness'])
+    from props import c02x
     if hid.get('kind') == 'witness':
+        if hid['witness'].get('x'):
+            return c02x.run_xwitness(ctx, hid['witness'])
         return run_witness(ctx, hid['witness'])
+    if c02x.replay(ctx, hid):
+        return
     if hid.get('kind') == 'random':
         ob, histories = random_histories(hid['oseed'], hid['per_obs'])
     elif hid.get('kind') == 'pairs':
